@@ -128,6 +128,17 @@ def replay_case(case):
             n2, c2, _, _, a2 = matlib.alpha_matrix(alone, output)
             if n2 != names or c2 != cells:
                 bad.append({**base, "why": f"part-{i}-differs-from-separate-build", "observed": [n2, c2], "expected": [names, cells]})
+            # the part's spec is as good as the spec of the separate build: on follow-up data that lacks a level both replay alike
+            sub = df[df["A"] != "z"] if "A" in df.columns and not case["nulls"]["A"] else None
+            if sub is not None and len(sub) and len(sub) < len(df):
+                import warnings
+
+                with warnings.catch_warnings():
+                    warnings.simplefilter("ignore")
+                    r1 = matlib.alpha_matrix(alone.model_spec.get_model_matrix(sub, context={}), output)
+                    r2 = matlib.alpha_matrix(specs[i].get_model_matrix(sub, context={}), output)
+                if r1[0] != r2[0] or r1[1] != r2[1]:
+                    bad.append({**base, "why": f"spec-of-part-{i}-replays-differently-from-the-spec-of-the-separate-build-on-follow-up-data", "observed": [r2[0], r2[1]], "expected": [r1[0], r1[1]]})
         except Exception as e:  # noqa
             bad.append({**base, "why": f"separate-build-of-part-{i}-failed", "observed": type(e).__name__ + ": " + str(e)[:100]})
         # the part's own spec regenerates it
